@@ -39,6 +39,8 @@ def configs(tier):
     out.append({'name': 'ifg-wrappers', 'kind': 'wrappers'})
     for mk in ('none', 'corner'):
         out.append({'name': 'synth-rms-3-%s' % mk, 'kind': 'synth', 'samples': 3, 'mask': mk})
+    # integer-typed height maps (raw counts): the window must not inherit the map's integer type
+    out.append({'name': 'psd-integer-map-3x3', 'kind': 'intmap', 'shape': [3, 3]})
     # history: a synthesis with the same sample count and spacing earlier in the process must not change what a later PSD reports
     for smp in (3, 4):
         out.append({'name': 'psd-after-synthesis-%d' % smp, 'kind': 'history', 'samples': smp})
@@ -53,6 +55,9 @@ def params(cfg):
         ps += [('h_%d_%d' % (i, j), {}) for i in range(m) for j in range(n)]
     if k == 'wrappers':
         ps += [('h_%d_%d' % (i, j), {}) for i in range(3) for j in range(3)]
+    if k == 'intmap':
+        m, n = cfg['shape']
+        ps += [('h_%d_%d' % (i, j), {'lo': -1000, 'hi': 1000}) for i in range(m) for j in range(n)]
     if k == 'history':
         s = cfg['samples']
         ps += [('z_%d_%d' % (i, j), {}) for i in range(s) for j in range(s)] + [('h_%d_%d' % (i, j), {}) for i in range(s) for j in range(s)]
@@ -152,6 +157,19 @@ def run(cfg, H):
         H.eq('Interferogram.psd data', ps.data, p)
         H.eq('Interferogram.psd x', ps.x, ux)
         H.eq('Interferogram.psd dx', ps.dx, 1 / (3 * dx))
+    elif k == 'intmap':
+        m, n = cfg['shape']
+        H.enable_dtype_model()
+        raw = H.asarray([[H.param('h_%d_%d' % (i, j)) for j in range(n)] for i in range(m)])
+        hi_ = np.asarray(raw).astype(np.int32)
+        hf = hi_ * H.frac(1)                       # the same counts as a floating map
+        for win in ('welch',):
+            uxi, uyi, pi_ = I.psd(hi_, dx, win)
+            uxf, uyf, pf_ = I.psd(hf, dx, win)
+            H.eq('PSD of an integer-typed map == PSD of the same map as floats (%s window)' % win, pi_, pf_)
+            wi = I.make_window(hi_, dx, win)
+            wf = I.make_window(hf, dx, win)
+            H.eq('the %s window does not depend on the type of the map' % win, wi * H.frac(1), wf)
     elif k == 'history':
         s = cfg['samples']
         size = 6                       # concrete: dxg = size / (samples - 1) is 3 or 2
